@@ -34,7 +34,7 @@ CLAIMS = {
         note="presentations are generated well-formed files; the textual re-presentation dimension is input generation, the simulator contributes sources, stdin and chunking",
         tech="deterministic simulation of the stream layer (fopencookie chunking, multi-source, stdin) + differential oracle"),
     "C05": dict(cat="fault_enumeration", ref="4/C05",
-        text="CLI and library runs under ASan+UBSan with junk-filled heap over well-formed, mutated and hostile inputs and option strings; 1-3 input sources, in-place output, reformat/check calls between read and run; for each sampled workload every single-fault placement of the gating I/O fault kinds (stat/fopen errors for every input source and for the output, read EIO at each read index, directory as input, stdin kinds) is enumerated, plus the runtime fault "team cannot be started" for absurd thread counts; outcome must be success-with-valid-alignment or failure-status-with-message; never a sanitizer report, signal, leak on success, hang, or result that depends on uninitialised memory; a valgrind sample covers uninitialised-value use.",
+        text="CLI and library runs under ASan+UBSan with junk-filled heap over well-formed, mutated and hostile inputs and option strings; 1-3 input sources, in-place output, reformat/check calls between read and run; for each sampled workload every single-fault placement of the gating I/O fault kinds (stat/fopen errors for every input source and for the output, read EIO at each read index, directory as input, stdin kinds) is enumerated, plus the runtime fault that a team cannot be started (absurd thread counts); outcome must be success-with-valid-alignment or failure-status-with-message; never a sanitizer report, signal, leak on success, hang, or result that depends on uninitialised memory; a valgrind sample covers uninitialised-value use.",
         note="allocation failure and write-side disk faults are simulated but not gating (no listed property speaks about them); hang detection uses a wall-clock watchdog and step budgets",
         tech="deterministic simulation with I/O fault enumeration (simfs), sanitizers, junk-fill differential for uninitialised reads"),
     "C06": dict(cat="exploration", ref="4/C06",
